@@ -212,7 +212,7 @@ def check_small(case, ctx):
 
 def subchecks():
     return [
-        HypSub("score_random", score_cases, check_score, quick=20000, thorough=300000),
+        HypSub("score_random", score_cases, check_score, quick=12000, thorough=200000),
         HypSub("score_refusal", refusal_cases, check_refusal, quick=1500, thorough=30000),
         HypSub("consensus_lazy", lazy_cases, check_lazy, quick=1500, thorough=30000),
         EnumSub("small_scope", small_datasets, check_small),
